@@ -162,6 +162,12 @@ type ConcCase struct {
 	// end with (bytes accepted, temporary error). The budget is far above what the cycle of
 	// stalls can consume (at least one entry of the cycle accepts everything).
 	Retries int `json:"retries,omitempty"`
+	// Stream0 (with Retries): the messages are addressed to stream 0, as every answer built with
+	// Message.Answer from a request read over TCP is (WriteToStreamWithRetry(conn, 0, n)).
+	Stream0 bool `json:"stream0,omitempty"`
+	// Inbound: that many requests of the peer arrive, and are handled by a handler that returns
+	// at once, while the writers are at work (the goroutine serving the connection is busy too).
+	Inbound int `json:"inbound,omitempty"`
 }
 
 func genStall(t *rapid.T) Stall {
@@ -194,8 +200,12 @@ func genConc(t *rapid.T) ConcCase {
 	for i := 0; i < ns; i++ {
 		c.Stalls = append(c.Stalls, genStall(t))
 	}
+	if rapid.IntRange(0, 2).Draw(t, "inbound") == 0 {
+		c.Inbound = rapid.IntRange(1, 12).Draw(t, "n-inbound")
+	}
 	if rapid.IntRange(0, 2).Draw(t, "with-retries") == 0 {
 		c.Retries = 64
+		c.Stream0 = rapid.Bool().Draw(t, "stream0")
 		for i := 1; i < len(c.Stalls); i++ { // entry 0 always accepts everything
 			c.Stalls[i].Fault = rapid.IntRange(0, 2).Draw(t, "fault") == 0
 		}
@@ -307,7 +317,11 @@ func runConc(c ConcCase) *ev.Failure {
 					}()
 					atomic.AddInt32(&inflight, 1)
 					defer atomic.AddInt32(&inflight, -1)
-					if c.Retries > 0 {
+					if c.Retries > 0 && c.Stream0 {
+						var n int
+						n, r.err = m.WriteToStreamWithRetry(conn, 0, uint(c.Retries))
+						r.n = int64(n)
+					} else if c.Retries > 0 {
 						r.n, r.err = m.WriteToWithRetry(conn, uint(c.Retries))
 					} else {
 						r.n, r.err = m.WriteTo(conn)
@@ -318,6 +332,21 @@ func runConc(c ConcCase) *ev.Failure {
 		}(w)
 	}
 	close(start)
+	if c.Inbound > 0 {
+		// the peer's requests trickle in while the writers write
+		wg.Add(1)
+		go func() {
+			defer wg.Done()
+			for i := 0; i < c.Inbound; i++ {
+				in := abstractMsg(99, i, 0)
+				mc.Feed(in.RefBytes())
+				for k := 0; k < 3; k++ {
+					runtime.Gosched()
+				}
+				mc.WaitParked(50 * time.Millisecond)
+			}
+		}()
+	}
 	done := make(chan struct{})
 	go func() { wg.Wait(); close(done) }()
 	select {
@@ -393,6 +422,15 @@ func classifyConc(c ConcCase) (bool, []string) {
 		}
 	}
 	cl.add(fmt.Sprintf("writers:%d", len(c.Writers)))
+	if c.Retries > 0 {
+		cl.add("writers-retry-on-temporary-errors")
+		if c.Stream0 {
+			cl.add("messages-addressed-to-stream-0")
+		}
+	}
+	if c.Inbound > 0 {
+		cl.add("peer-requests-handled-meanwhile")
+	}
 	stall := false
 	for i := 0; i < total && i < len(c.Stalls); i++ {
 		s := c.Stalls[i]
@@ -415,7 +453,7 @@ func classifyConc(c ConcCase) (bool, []string) {
 
 var concProp = ev.Register(&ev.Prop[ConcCase]{
 	ID: "C07", Name: "concurrent",
-	Rule: "1..8 goroutines each WriteTo 1..5 numbered messages (sizes below/at/above 1 KiB and 4 KiB) to one diam.Conn over a memnet.Conn whose Write accepts a prefix, stalls (none / Gosched / 50-500 us / until another writer has a write under way) and copies the rest from the caller's slice; 1 in 3 cases every writer uses WriteToWithRetry and some transport writes end with (prefix accepted, temporary error) instead; non-trivial = >= 2 writers and >= 1 stalling transport write (the classes dyn:* count the stalls during which another writer was observed inside WriteTo)",
+	Rule: "1..8 goroutines each WriteTo 1..5 numbered messages (sizes below/at/above 1 KiB and 4 KiB) to one diam.Conn over a memnet.Conn whose Write accepts a prefix, stalls (none / Gosched / 50-500 us / until another writer has a write under way) and copies the rest from the caller's slice; 1 in 3 cases requests of the peer are handled by the connection meanwhile; 1 in 3 cases every writer uses WriteToWithRetry (half of them addressed to stream 0, as answers are) and some transport writes end with (prefix accepted, temporary error) instead; non-trivial = >= 2 writers and >= 1 stalling transport write (the classes dyn:* count the stalls during which another writer was observed inside WriteTo)",
 	Gen:  genConc, Run: runConc, Classify: classifyConc, Attempts: 5,
 })
 
@@ -809,7 +847,7 @@ func TestC07RetryKeepsTheConnection(t *testing.T) {
 		for _, fill := range []int{0, 100, 1200, 5000} {
 			for _, prefix := range []int{1, 100, 500, 999} {
 				for _, writers := range [][][]int{{{fill}, {fill}}, {{fill, 8}, {fill}, {40}}} {
-					c := ConcCase{Writers: writers, Retries: 8,
+					c := ConcCase{Writers: writers, Retries: 8, Stream0: prefix%2 == 0,
 						Stalls: []Stall{{Prefix: prefix, Kind: "pending", K: 5, Fault: true}, {Prefix: 1000, Kind: "none"}, {Prefix: 1000, Kind: "none"}}}
 					if !yield(c) {
 						return
